@@ -99,6 +99,12 @@ def cases(tier, seed):
                 for it in (0, 1, 3):
                     for r in range(2 if q else 5):
                         out.append(dict(kind="eas", env=env, n=n, B=B, iter=it, s=rnd.randrange(10**6), wseed=r))
+    # DeepACO's policy class in its training phase (multi-start sampling, outputs regrouped to [instance, ant])
+    for env in ("tsp", "cvrp"):
+        for n in ((6, 9) if q else (5, 6, 10, 20)):
+            for B in ((1, 3) if q else (1, 2, 3, 5)):
+                for K in (2, 4):
+                    out.append(dict(kind="deepaco", env=env, n=n, B=B, ants=K, s=rnd.randrange(10**6), wseed=rnd.randrange(4)))
     for B in (1, 3, 6):
         for r in range(3 if q else 10):
             out.append(dict(kind="flagged", B=B, T=rnd.choice([4, 9]), N=rnd.choice([3, 7]), n=rnd.choice([6, 9]), s=rnd.randrange(10**6)))
@@ -108,7 +114,7 @@ def cases(tier, seed):
 def run_case(ctx, case):
     from vlib import c11impl
 
-    {"stepwise": c11impl.stepwise_case, "flagged": c11impl.flagged_case, "select_best": c11impl.select_best_case, "ffsp_multistage": c11impl.ffsp_multistage_case, "beam": c11impl.beam_case, "eas": c11impl.eas_case}.get(case.get("kind"), c11impl.case)(ctx, case)
+    {"stepwise": c11impl.stepwise_case, "flagged": c11impl.flagged_case, "select_best": c11impl.select_best_case, "ffsp_multistage": c11impl.ffsp_multistage_case, "beam": c11impl.beam_case, "eas": c11impl.eas_case, "deepaco": c11impl.deepaco_case}.get(case.get("kind"), c11impl.case)(ctx, case)
 
 
 MANIFEST = {
